@@ -103,7 +103,7 @@ def gen_archives(rnd, tier):
     out.append(('single-file', [mk(2, name=b'only')]))
     out.append(('empty-archive-of-dirs', [mk(2, method=b'-lhd-', path=b'a/'), mk(1, method=b'-lhd-', path=b'a/b/')]))
     # random headers from the C05 generator (all levels, ext-header mixes), list-only
-    n = 60 if tier == 'quick' else 6000
+    n = 300 if tier == 'quick' else 6000
     for i in range(n):
         ms = []
         total_p = total_s = 0
